@@ -79,7 +79,8 @@ def check(events, interrupted_by_consumer=False):
             worst = max((RANK[s] for s in suite_status_by_phase.get(e["phase"], []) if s in RANK), default=None)
             worst_sc = max((RANK[s] for s in scenario_status_by_phase.get(e["phase"], []) if s in RANK), default=None)
             for what, w in (("suite", worst), ("scenario", worst_sc)):
-                if w is not None and (e["status"] not in RANK or RANK[e["status"]] < w):
+                # only failures/errors/interruptions have to propagate upwards (SKIP vs SUCCESS is not ordered)
+                if w is not None and w >= 1 and (e["status"] not in RANK or RANK[e["status"]] < w):
                     bad(
                         f"C11/phase-status-better-than-worst-{what}",
                         f"phase {e['phase']} status {e['status']} but worst {what} rank {w}",
@@ -106,7 +107,7 @@ def check(events, interrupted_by_consumer=False):
                     f"{len(unclosed)} scenario(s) of {e['phase']} still open at SuiteFinished without interruption: {[u[2] for u in unclosed][:4]}",
                 )
             worst = max((RANK[s] for s in scenario_status_by_suite.get(e["id"], []) if s in RANK), default=None)
-            if worst is not None and (e["status"] not in RANK or RANK[e["status"]] < worst):
+            if worst is not None and worst >= 1 and (e["status"] not in RANK or RANK[e["status"]] < worst):
                 bad("C11/suite-status-better-than-worst-scenario", f"suite {e['phase']} status {e['status']} but worst scenario rank {worst}")
             suite_status_by_phase.setdefault(e["phase"], []).append(e["status"])
         elif t == "ScenarioStarted":
